@@ -86,13 +86,20 @@ def compare_sens(defn, m, out, rng, npoints=2):
         mism.append({"key": "spec", "kind": "design", "detail": "the specification's own block assembly is not the derivative"})
         return mism
     calls = []
+    # every function exists in a (state, t) and a (t, state) form (the latter is what scipy.integrate.ode is handed); one of
+    # the two is drawn per function
+    tf = [rng.random() < 0.5 for _ in range(6)]
     if np_ > 0:
-        calls += [("augP", "varsP", lambda z, t: m.ode_and_sensitivity(z, t)),
-                  ("augS", "varsS", lambda z, t: m.ode_and_sensitivity(z, t, by_state=True)),
-                  ("jacP", "varsP", lambda z, t: m.ode_and_sensitivity_jacobian(z, t)),
-                  ("jacS", "varsS", lambda z, t: m.ode_and_sensitivity_jacobian(z, t, by_state=True))]
-    calls += [("augIV", "varsIV", lambda z, t: m.ode_and_sensitivityIV(z, t)),
-              ("jacIV", "varsIV", lambda z, t: m.ode_and_sensitivityIV_jacobian(z, t))]
+        calls += [("augP", "varsP", (lambda z, t: m.ode_and_sensitivity_T(t, z)) if tf[0] else (lambda z, t: m.ode_and_sensitivity(z, t))),
+                  ("augS", "varsS", (lambda z, t: m.ode_and_sensitivity_T(t, z, by_state=True)) if tf[1]
+                   else (lambda z, t: m.ode_and_sensitivity(z, t, by_state=True))),
+                  ("jacP", "varsP", (lambda z, t: m.ode_and_sensitivity_jacobian_T(t, z)) if tf[2]
+                   else (lambda z, t: m.ode_and_sensitivity_jacobian(z, t))),
+                  ("jacS", "varsS", (lambda z, t: m.ode_and_sensitivity_jacobian_T(t, z, by_state=True)) if tf[3]
+                   else (lambda z, t: m.ode_and_sensitivity_jacobian(z, t, by_state=True)))]
+    calls += [("augIV", "varsIV", (lambda z, t: m.ode_and_sensitivityIV_T(t, z)) if tf[4] else (lambda z, t: m.ode_and_sensitivityIV(z, t))),
+              ("jacIV", "varsIV", (lambda z, t: m.ode_and_sensitivityIV_jacobian_T(t, z)) if tf[5]
+               else (lambda z, t: m.ode_and_sensitivityIV_jacobian(z, t)))]
     rng.shuffle(calls)
     for _ in range(npoints):
         base, ext = sens_point(rng, sy, n2)
